@@ -207,7 +207,11 @@ def _worker_chunk(args: Tuple[str, int, str, List[int]]) -> List[Dict[str, Any]]
                 res.append({"i": i, "seed": seed, "harness_error": "generate: " + "".join(
                     traceback.format_exception(type(e), e, e.__traceback__))[-2000:]})
                 continue
+            from .clock import SimClock as _SC
+            _ns0 = _SC.total_ns
             out = safe_execute(_MOD, program)
+            if not out.get("sim_s"):
+                out["sim_s"] = (_SC.total_ns - _ns0) / 1e9
             vs, seen_sigs = [], set()
             for v in out["violations"]:
                 if v["sig"] not in seen_sigs and len(vs) < 12:
